@@ -152,7 +152,7 @@ func defaultConfig() *Config {
 		InstrLimit:        instrLimit(),
 		PathLimit:         200_000,
 		ConcCap:           300,
-		SymIdxCap:         320,
+		SymIdxCap:         1100,
 		SolverTimeoutS:    10,
 		ItemTimeoutS:      itemTimeout(),
 		MaxViolations:     4,
